@@ -48,7 +48,7 @@ Lemma lookup_answer (st : list schema) (its : iters T) (h : hop T) (i : nat) (s 
   target h = Some i -> nth_error st i = Some s -> hstep (st, its) h = ((st, its), answer h s).
 Proof.
   intros Ht Hs.
-  destruct h as [o|j|k|j ci keys|j q n|j q al|j p j2 q|j p]; try discriminate.
+  destruct h as [o|j|k|j ci keys|j q n|j q al|j p j2 q|j p|j j2]; try discriminate.
   - destruct o as [a b|j key ci|j z|j key|j n|j|j|j]; try discriminate; injection Ht as ->;
       simpl; unfold C17.with_schema; rewrite Hs; reflexivity.
   - injection Ht as ->. simpl. rewrite Hs. reflexivity.
@@ -62,7 +62,7 @@ Proof.
   intros Ht E. destruct (nth_error st i) as [s|] eqn:Hs.
   - rewrite (lookup_answer st its h i s Ht Hs), (lookup_answer st' its' h i s Ht (eq_sym E)). reflexivity.
   - symmetry in E.
-    destruct h as [o|j|k|j ci keys|j q n|j q al|j p j2 q|j p]; try discriminate.
+    destruct h as [o|j|k|j ci keys|j q n|j q al|j p j2 q|j p|j j2]; try discriminate.
     + destruct o as [a b|j key ci|j z|j key|j n|j|j|j]; try discriminate; injection Ht as ->;
         simpl; unfold C17.with_schema; rewrite Hs, E; reflexivity.
     + injection Ht as ->. simpl. rewrite Hs, E. reflexivity.
